@@ -276,6 +276,18 @@ def c06(o):
         foreign = {key for kind, key in waits if kind == 'i' and '.' in key and key.split('.')[0] != line.split('.')[0]}
         if n > 1 + len(waits) + len(foreign):
             return f'{line} evaluated {n} times with {len(waits)} distinct last-reads ({len(foreign)} of them inputs of another form)'
+    if 'result' in o and 'unmet_fields' in o:
+        # no lost waiter: a scheduled line that ends without a value and is not reported unimplemented is still registered as waiting
+        def names(m):
+            out = set()
+            for dep, lst in (m.items() if isinstance(m, dict) else []):
+                for f in lst:
+                    out.add(f if isinstance(f, str) else f.name())
+            return out
+        waiting = names(o['unmet_fields']) | names(o['unmet_inputs'])
+        for line in sorted(o['scheduled']):
+            if line not in o['values'] and line not in o['unimplemented'] and line not in waiting:
+                return f'{line} was scheduled, has no value, is not unimplemented and is registered as waiting on nothing: a lost waiter'
     return None
 
 
@@ -390,6 +402,8 @@ def fixed_programs():
     P.append({'a': {'inputs': [], 'lines': {'t': [('v', 'c:x.s'), ('v', 'c:y.s')]}, 'required': ['t']},
               'c:x': {'inputs': ['p'], 'lines': {'s': [('v', 'u'), ('in', 'p')], 'u': [('in', 'p')]}, 'required': ['s']},
               'c:y': {'inputs': ['p'], 'lines': {'s': [('v', 'u'), ('in', 'p')], 'u': [('in', 'p')]}, 'required': ['s']}})
+    # a wide fan-out: 40 lines of one form wait on the same missing input at the moment it is asked
+    P.append({'a': {'inputs': ['x'], 'lines': {f'w{k}': [('in', 'x')] for k in range(40)}, 'required': [f'w{k}' for k in range(40)]}})
     return P
 
 
